@@ -187,7 +187,7 @@ def specStr (a : Gen.AccRow) (st : Decode.Stream) (exploreUpTo : Nat) : String :
   let bj := BlockJobs.checkStream a.isU65 st.ops
   let bjs := match bj with
     | [] => "-"
-    | m :: _ => m.replace " " "_"
+    | _ => "~".intercalate ((bj.take 8).map fun (m : String) => m.replace " " "_")
   s!"lazy={boolStr v.lazy} first={first} explore={v.explored} blockjobs={bj.length} {bjs}"
 
 def handle : List String → Option String
